@@ -249,9 +249,36 @@ CLAIMED = {
              "theorem is stated (C07_correct_chain_real_cache). C07_example_depth3: the hypotheses are met by a consistent universe "
              ". -> com. -> example.com. -> sub.example.com. built in the file (an existing record and a NODATA question: four "
              "exchanges at fuel 5; the same run evaluated by vm_compute asks 10.0.0.1..4 in order). "
-             "STREAM-ONLY (not proved): resolution through nameservers without glue (nested resolution of the host), through "
-             "aliases, in the v6 modes, with a cache warm from earlier questions, and with servers authoritative for several "
-             "zones of a chain, i.e. that the result EQUALS auth_answer on every consistent "
+             "WARM CACHE PROVED (C07_correct_warm, C07_correct_warm_real_cache; Resolver/RecursiveWarm.v): the chain theorem from ANY "
+             "cache consistent with the universe (cache_consistent: every record read is a record of the universe up to TTL and "
+             "class; the hosts of a cached NS set resolve in the fast pass; a cached non-NS RRset not at a nameserver host holds all "
+             "the data of its name and type) -- C07_empty_cache_consistent: the empty cache is; the resolution of a plain question "
+             "ends in a consistent cache (every insert_all is the filter result on a reply of serve: a referral's NS set and glue, "
+             "or the answer RRset); and it returns the authoritative answer: either the cached RRset (exactly the authoritative "
+             "data -- same owner, type, data; TTLs and order are the cache's, i.e. the server's at the fixed instant -- no exchange, "
+             "cache unchanged) or EXACTLY auth_answer over the network with one exchange per zone of a non-empty suffix of the "
+             "delegation chain, starting at the deepest zone whose NS set is cached (the root hints if none). Abstract cache with "
+             "four laws about one insert_all into any cache (shape, sound, monotone, complete), proved for SimpleCache and the real "
+             "cache model at a fixed instant (C07_warm_cache_laws). SEQUENCES PROVED (C07_sequence, C07_sequence_outcomes; "
+             "Resolver/RecursiveSequence.v): any list of plain questions resolved one after the other on one cache started empty (or "
+             "consistent) each returns its authoritative answer, the cache stays consistent. ALIASES PROVED (C07_correct_alias, "
+             "C07_correct_alias_real_cache, C07_alias_sequence; Resolver/RecursiveAlias.v): a question whose authoritative answer is a "
+             "chain of k < 31 aliases n0 -> .. -> nk, each link held by the zone owning its owner, crossing zones freely, pairwise "
+             "distinct names, followed by the final RRset or NODATA/NXDOMAIN at nk: auth_answer = chain ++ final answer, and resolve "
+             "returns the chain's records in order (owner, type, data) followed by records with exactly the data of the final RRset, "
+             "with the final SOA, from any consistent cache, leaving a consistent cache -- through resolve_local following the cached "
+             "part of the chain, serve's multi-link replies (the chain as far as the answering server's zones go), the reply filter "
+             "keeping exactly chain ++ finals (C07_filter_accepts_alias_answer: NRAnswer / NRCname), and the NRCname continuation "
+             "(resolve_combined_recursive: the nested resolve_recursive_notimeout on the next name with the alias questions on the "
+             "stack, on the cache warmed so far; the warm theorem holds for any question stack); sequences mixing alias and plain "
+             "questions likewise. Examples (hypotheses satisfiable, and the runs evaluated by vm_compute): C07_example_warm, "
+             "C07_example_sequence, C07_example_alias on the depth-3 universe extended with alias.example.com. CNAME "
+             "www.sub.example.com. and ext.com. CNAME alias.example.com. (ext.com. A: six exchanges, three records in order; asked "
+             "again: from the cache). "
+             "STREAM-ONLY (not proved): resolution through nameservers without glue (nested resolution of the host: the slow "
+             "candidate pass), in the v6 / prefer modes, with servers authoritative for several zones of one delegation chain (a hop "
+             "is skipped), with faults, questions for NS / CNAME / ANY and questions about a nameserver host from a warm cache, i.e. "
+             "that the result EQUALS auth_answer on every consistent "
              "universe (C07_correct_partial is stated in a comment of Properties/C07.v with what is missing). That clause is covered "
              "by the differential stream and the oracle: generated universes (depth 1..5, 1..3 nameservers per zone, "
              "in/out-of-bailiwick and sibling nameserver names, glue present/absent, v4/v6/dual addresses, cross-zone CNAMEs, "
@@ -265,14 +292,22 @@ CLAIMED = {
              "answering the question themselves, at every link a glue-complete delegation whose addresses -- in the parent and in "
              "the zones above it, whose glue the cache holds by then -- are servers whose closest zone for the name is the "
              "delegated zone, positive glue TTL, strictly deeper apex, the question name owning no glue -- finding F11; "
-             "consistentb is not needed beyond these). Missing for the whole statement: (1) nameserver hosts without glue, "
-             "resolved by a nested recursive resolution (the slow candidate pass, a deeper question stack), and a cache warm "
-             "from earlier questions (candidate_nameservers then starts below the root); servers authoritative for several "
-             "zones of one chain (a hop is skipped); the v6 modes; (2) a well-formedness predicate on universes "
+             "consistentb is not needed beyond these); from any consistent cache (C07_correct_warm), for sequences of questions "
+             "(C07_sequence) and for alias chains crossing zones (C07_correct_alias) under the hypotheses warm_question / "
+             "alias_path of Resolver/RecursiveWarm.v, RecursiveAlias.v: per name a glue-complete delegation chain as above with the "
+             "address clause over the whole universe (the cache may hold any of its records), NS owners at or above the name are "
+             "the chain's apexes, no alias strictly above the name, the name not a nameserver host, question type a record type "
+             "other than NS / CNAME; for a plain name: data only in its zone, no glue for it, positive TTLs; for an alias name: the "
+             "CNAME is the only record of the universe it owns; the chain's names pairwise distinct and fewer than 31 links; every "
+             "server that has a zone enclosing a chain name with no cut of that zone on the way has the zone owning the name. "
+             "Missing for the whole statement: (1) nameserver hosts without glue, "
+             "resolved by a nested recursive resolution (the slow candidate pass); servers authoritative for several "
+             "zones of one delegation chain (a hop is skipped); the v6 modes; faults; (2) a well-formedness predicate on universes "
              "implying [serve_fits] (replies well formed and at "
-             "most 512 octets), under which C07_universe_oracle_delivers discharges the hop theorems' hypothesis [delivers]; "
-             "(3) aliases (serve's multi-link answers, the CNAME continuation); (4) the glue "
-             "shortcut F11 as a hypothesis on the universe. Stated hypothesis of the property as "
+             "most 512 octets), under which C07_universe_oracle_delivers discharges the hop theorems' hypothesis [delivers], and "
+             "from which the per-question hypotheses follow (they are decidable but stated question by question); "
+             "(3) warm-cache questions for NS, and about nameserver hosts (the glue "
+             "shortcut F11 as a hypothesis on the universe). Stated hypothesis of the property as "
              "implemented: every listed nameserver answers (the first candidate that gives no usable reply ends the resolution "
              "with DeadEnd). The theorems hold for an abstract cache under two laws (a read returns records the cache holds, up "
              "to class and TTL; an insert adds only the inserted records) which SimpleCache -- the small executable instance at a "
